@@ -33,9 +33,11 @@ fn format_number(
     grouping_separator: Option<Value>,
     decimal_separator: Value,
 ) -> Resolved {
-    let value: Decimal = match value {
-        Value::Integer(v) => v.into(),
-        Value::Float(v) => Decimal::from_f64(*v).expect("not NaN"),
+    let value: String = match value {
+        Value::Integer(v) => Decimal::from(v).to_string(),
+        // A `Decimal` holds about 28 significant digits; a float outside that range keeps
+        // its own (exponent-free) decimal representation.
+        Value::Float(v) => Decimal::from_f64(*v).map_or_else(|| v.to_string(), |d| d.to_string()),
         value => {
             return Err(ValueError::Expected {
                 got: value.kind(),
@@ -55,7 +57,6 @@ fn format_number(
     let decimal_separator = decimal_separator.try_bytes()?;
     // Split integral and fractional part of float.
     let mut parts = value
-        .to_string()
         .split('.')
         .map(ToOwned::to_owned)
         .collect::<Vec<String>>();
